@@ -195,27 +195,53 @@ Proof. intros. unfold fired. now rewrite flat_map_app. Qed.
 Lemma fired_nil : fired [] = [].
 Proof. reflexivity. Qed.
 
-Definition view : Type :=
-  (list (cmd * cbref) * list (N * cbref) * list (N * list (N * cbref)) * list N * N * N * N * N * list (N * N * N))%type.
-
 Definition nview (n : node) :=
-  (queue n, wait_reply n, wait_commit n, hist n, applied n, enabled_ver n, self_ver n, local_ctr n).
+  (queue n, wait_reply n, wait_commit n, hist n, applied n, enabled_ver n, self_ver n, local_ctr n,
+   log n, stored (sr n)).
 
-Definition view_of (s : S) : view :=
+(* the full view: callback tables, user state, log, stored snapshot, Fired outputs *)
+Definition view_of (s : S) :=
   (queue (nd s), wait_reply (nd s), wait_commit (nd s), hist (nd s), applied (nd s),
-   enabled_ver (nd s), self_ver (nd s), local_ctr (nd s), fired (outs s)).
+   enabled_ver (nd s), self_ver (nd s), local_ctr (nd s), fired (outs s),
+   log (nd s), stored (sr (nd s))).
 
 Lemma view_of_eq : forall s s', nview (nd s) = nview (nd s') -> fired (outs s) = fired (outs s') ->
   view_of s = view_of s'.
-Proof. unfold view_of, nview. intros s s' H F. injection H as -> -> -> -> -> -> -> ->. now rewrite F. Qed.
+Proof. unfold view_of, nview. intros s s' H F. injection H as -> -> -> -> -> -> -> -> -> ->. now rewrite F. Qed.
 
 Lemma view_inv : forall s s', view_of s = view_of s' ->
   queue (nd s) = queue (nd s') /\ wait_reply (nd s) = wait_reply (nd s') /\
   wait_commit (nd s) = wait_commit (nd s') /\ hist (nd s) = hist (nd s') /\
   applied (nd s) = applied (nd s') /\ enabled_ver (nd s) = enabled_ver (nd s') /\
   self_ver (nd s) = self_ver (nd s') /\ local_ctr (nd s) = local_ctr (nd s') /\
+  fired (outs s) = fired (outs s') /\ log (nd s) = log (nd s') /\ stored (sr (nd s)) = stored (sr (nd s')).
+Proof. unfold view_of. intros s s' H. injection H. auto 14. Qed.
+
+(* the same without the log and the stored snapshot *)
+Definition snview (n : node) :=
+  (queue n, wait_reply n, wait_commit n, hist n, applied n, enabled_ver n, self_ver n, local_ctr n).
+
+Definition sview_of (s : S) :=
+  (queue (nd s), wait_reply (nd s), wait_commit (nd s), hist (nd s), applied (nd s),
+   enabled_ver (nd s), self_ver (nd s), local_ctr (nd s), fired (outs s)).
+
+Lemma sview_of_eq : forall s s', snview (nd s) = snview (nd s') -> fired (outs s) = fired (outs s') ->
+  sview_of s = sview_of s'.
+Proof. unfold sview_of, snview. intros s s' H F. injection H as -> -> -> -> -> -> -> ->. now rewrite F. Qed.
+
+Lemma sview_inv : forall s s', sview_of s = sview_of s' ->
+  queue (nd s) = queue (nd s') /\ wait_reply (nd s) = wait_reply (nd s') /\
+  wait_commit (nd s) = wait_commit (nd s') /\ hist (nd s) = hist (nd s') /\
+  applied (nd s) = applied (nd s') /\ enabled_ver (nd s) = enabled_ver (nd s') /\
+  self_ver (nd s) = self_ver (nd s') /\ local_ctr (nd s) = local_ctr (nd s') /\
   fired (outs s) = fired (outs s').
-Proof. unfold view_of. intros s s' H. injection H. auto 12. Qed.
+Proof. unfold sview_of. intros s s' H. injection H. auto 12. Qed.
+
+Lemma view_sview : forall s s', view_of s = view_of s' -> sview_of s = sview_of s'.
+Proof.
+  intros s s' H. apply view_inv in H as (H1 & H2 & H3 & H4 & H5 & H6 & H7 & H8 & H9 & _).
+  unfold sview_of. now rewrite H1, H2, H3, H4, H5, H6, H7, H8, H9.
+Qed.
 
 (* a helper that neither touches the callback tables / user state nor fires a callback *)
 Definition quiet (f : S -> S) : Prop := forall s, view_of (f s) = view_of s.
@@ -292,17 +318,41 @@ Qed.
 Definition cview_of (s : S) :=
   (queue (nd s), wait_reply (nd s), wait_commit (nd s), local_ctr (nd s), self_ver (nd s), fired (outs s)).
 
-Lemma view_cview : forall s s', view_of s = view_of s' -> cview_of s = cview_of s'.
+Lemma sview_cview : forall s s', sview_of s = sview_of s' -> cview_of s = cview_of s'.
 Proof.
-  intros s s' H. apply view_inv in H as (H1 & H2 & H3 & H4 & H5 & H6 & H7 & H8 & H9).
+  intros s s' H. apply sview_inv in H as (H1 & H2 & H3 & H4 & H5 & H6 & H7 & H8 & H9).
   unfold cview_of. now rewrite H1, H2, H3, H7, H8, H9.
 Qed.
+
+Lemma view_cview : forall s s', view_of s = view_of s' -> cview_of s = cview_of s'.
+Proof. intros. now apply sview_cview, view_sview. Qed.
 
 Lemma cview_inv : forall s s', cview_of s = cview_of s' ->
   queue (nd s) = queue (nd s') /\ wait_reply (nd s) = wait_reply (nd s') /\
   wait_commit (nd s) = wait_commit (nd s') /\ local_ctr (nd s) = local_ctr (nd s') /\
   self_ver (nd s) = self_ver (nd s') /\ fired (outs s) = fired (outs s').
 Proof. unfold cview_of. intros s s' H. injection H. auto 12. Qed.
+
+
+(* ---- the same primitives for the small view ---- *)
+Definition squiet (f : S -> S) : Prop := forall s, sview_of (f s) = sview_of s.
+
+Lemma quiet_squiet : forall f, quiet f -> squiet f.
+Proof. intros f H s. apply view_sview, H. Qed.
+
+Lemma sview_upd : forall f s, snview (f (nd s)) = snview (nd s) -> sview_of (upd f s) = sview_of s.
+Proof. intros. apply sview_of_eq; auto. Qed.
+
+Lemma sview_andthen : forall f g, squiet f -> squiet g -> squiet (f ;; g).
+Proof.
+  intros f g Hf Hg s. unfold andthen. destruct (ok (f s)); [rewrite Hg|]; apply Hf.
+Qed.
+
+Lemma sview_fold : forall {A} (f : S -> A -> S) (l : list A),
+  (forall a s, sview_of (f s a) = sview_of s) -> forall s, sview_of (fold_left f l s) = sview_of s.
+Proof.
+  induction l as [|a l IH]; intros H s; cbn; auto. rewrite IH; auto.
+Qed.
 
 (* ---- serializer ---- *)
 Lemma view_get_transmission : forall e x s, view_of (fst (get_transmission e x s)) = view_of s.
@@ -315,11 +365,18 @@ Qed.
 Lemma view_cancel_transmission : forall x s, view_of (cancel_transmission x s) = view_of s.
 Proof. intros. unfold cancel_transmission. now apply view_upd. Qed.
 
-Lemma view_set_transmission : forall p s, view_of (fst (set_transmission p s)) = view_of s.
+Lemma sview_set_transmission : forall p s, sview_of (fst (set_transmission p s)) = sview_of s.
 Proof.
   intros. unfold set_transmission. destruct p as [|b off len first last]; cbn [fst]; auto.
   destruct (if first then Some [] else incoming (sr (nd s))); cbn [fst]; auto.
-  destruct last; cbn [fst]; now apply view_upd.
+  destruct last; cbn [fst]; now apply sview_upd.
+Qed.
+
+Lemma log_set_transmission : forall p s, log (nd (fst (set_transmission p s))) = log (nd s).
+Proof.
+  intros. unfold set_transmission. destruct p as [|b off len first last]; cbn [fst]; auto.
+  destruct (if first then Some [] else incoming (sr (nd s))); cbn [fst]; auto.
+  destruct last; reflexivity.
 Qed.
 
 (* ---- __sendAppendEntries ---- *)
@@ -391,13 +448,14 @@ Lemma nview_fold_leader : forall (l : list nid) now n,
                                  <| last_resp := aset x now (last_resp n) |>) l n) = nview n.
 Proof. induction l as [|x l IH]; intros; cbn [fold_left]; auto. now rewrite IH. Qed.
 
-Lemma view_become_leader : forall e s, view_of (become_leader e s) = view_of s.
+Lemma sview_become_leader : forall e s, sview_of (become_leader e s) = sview_of s.
 Proof.
   intros. unfold become_leader.
-  rewrite (view_andthen _ _ (fun s => match use_batch (cf e) as b return
+  rewrite (sview_andthen _ _ (quiet_squiet _ (fun s => match use_batch (cf e) as b return
               view_of ((if b then (fun s => s) else send_ae e) s) = view_of s with
-              | true => eq_refl | false => view_send_ae e s end) (quiet_send_ae e)).
-  rewrite view_upd by reflexivity.
+              | true => eq_refl | false => view_send_ae e s end)) (quiet_squiet _ (quiet_send_ae e))).
+  rewrite sview_upd by reflexivity.
+  apply view_sview.
   rewrite view_upd by (cbv beta; apply nview_fold_leader).
   rewrite view_upd by reflexivity.
   rewrite view_set_role. now apply view_upd.
@@ -450,20 +508,20 @@ Proof.
   all: try (now apply view_upd).
 Qed.
 
-Lemma view_try_compact : forall e s, view_of (try_compact e s) = view_of s.
+Lemma sview_try_compact : forall e s, sview_of (try_compact e s) = sview_of s.
 Proof.
   intros. unfold try_compact.
   set (s1 := if pid (sr (nd s)) =? 0 then s else upd _ s).
-  assert (V1 : view_of s1 = view_of s) by (unfold s1; destruct (pid (sr (nd s)) =? 0); auto; now apply view_upd).
+  assert (V1 : sview_of s1 = sview_of s) by (unfold s1; destruct (pid (sr (nd s)) =? 0); auto).
   set (s2 := if pid (sr (nd s)) =? 1 then upd _ s1 else s1).
-  assert (V2 : view_of s2 = view_of s) by (unfold s2; destruct (pid (sr (nd s)) =? 1); auto; now rewrite view_upd by reflexivity).
+  assert (V2 : sview_of s2 = sview_of s) by (unfold s2; destruct (pid (sr (nd s)) =? 1); auto).
   destruct (negb (pid (sr (nd s)) =? 0)); auto.
   destruct ((N.of_nat (length (log (nd s2))) <=? min_entries (cf e)) &&
             (tnow s - last_ser_time (nd s2) <=? min_time (cf e))%Z && negb (force_compact (nd s2))); auto.
   destruct (get_entries (log (nd s2)) (Some (applied (nd s2) - 1)) (Some 2) None) as [|e0 [|e1 r]].
-  - now rewrite !view_upd by reflexivity.
-  - now rewrite !view_upd by reflexivity.
-  - destruct (opt_eqb (Some (eidx e0)) (last_ser_entry (nd s2))); now rewrite !view_upd by reflexivity.
+  - now rewrite !sview_upd by reflexivity.
+  - now rewrite !sview_upd by reflexivity.
+  - destruct (opt_eqb (Some (eidx e0)) (last_ser_entry (nd s2))); now rewrite !sview_upd by reflexivity.
 Qed.
 
 (* ---- append_entries handler ---- *)
@@ -473,43 +531,46 @@ Proof.
   destruct v as [v|]; auto. destruct (commit (nd s) <? c); auto.
 Qed.
 
-Lemma view_ae_regular : forall e from c prev new s, view_of (ae_regular e from c prev new s) = view_of s.
+Lemma sview_ae_regular : forall e from c prev new s, sview_of (ae_regular e from c prev new s) = sview_of s.
 Proof.
   intros. unfold ae_regular.
   destruct (get_entries (log (nd s)) (option_map fst prev) None None) as [|p0 ptail].
-  - apply view_send_next_idx.
-  - destruct prev as [[pidx pterm]|]; [|apply view_send_next_idx].
-    destruct (negb (eterm p0 =? pterm)); [apply view_send_next_idx|].
-    rewrite view_ae_commit, view_send_next_idx.
-    match goal with |- view_of (if dyn (cf e) then apply_membership false ?a ?s0 else ?s0) = _ =>
-      assert (V : view_of (if dyn (cf e) then apply_membership false a s0 else s0) = view_of s0)
-        by (destruct (dyn (cf e)); auto; apply view_apply_membership); rewrite V; clear V end.
-    rewrite view_upd by reflexivity.
+  - apply view_sview, view_send_next_idx.
+  - destruct prev as [[pidx pterm]|]; [|apply view_sview, view_send_next_idx].
+    destruct (negb (eterm p0 =? pterm)); [apply view_sview, view_send_next_idx|].
+    rewrite (view_sview _ _ (view_ae_commit _ _ _)), (view_sview _ _ (view_send_next_idx _ _ _ _ _)).
+    match goal with |- sview_of (if dyn (cf e) then apply_membership false ?a ?s0 else ?s0) = _ =>
+      assert (V : sview_of (if dyn (cf e) then apply_membership false a s0 else s0) = sview_of s0)
+        by (destruct (dyn (cf e)); auto; apply view_sview, view_apply_membership); rewrite V; clear V end.
+    rewrite sview_upd by reflexivity.
     destruct (skipn (matched_prefix ptail new) ptail); auto.
     destruct (skipn (matched_prefix ptail new) new); auto.
-    rewrite view_upd by reflexivity.
-    destruct (dyn (cf e)); auto. apply view_apply_membership.
+    rewrite sview_upd by reflexivity.
+    destruct (dyn (cf e)); auto. apply view_sview, view_apply_membership.
 Qed.
 
 (* the user-state part (the callback plumbing keeps this) *)
 Definition uview_of (s : S) := (hist (nd s), applied (nd s), enabled_ver (nd s), self_ver (nd s)).
 
-Lemma view_uview : forall s s', view_of s = view_of s' -> uview_of s = uview_of s'.
+Lemma sview_uview : forall s s', sview_of s = sview_of s' -> uview_of s = uview_of s'.
 Proof.
-  intros s s' H. apply view_inv in H as (H1 & H2 & H3 & H4 & H5 & H6 & H7 & H8 & H9).
+  intros s s' H. apply sview_inv in H as (H1 & H2 & H3 & H4 & H5 & H6 & H7 & H8 & H9).
   unfold uview_of. now rewrite H4, H5, H6, H7.
 Qed.
+
+Lemma view_uview : forall s s', view_of s = view_of s' -> uview_of s = uview_of s'.
+Proof. intros. now apply sview_uview, view_sview. Qed.
 
 Lemma uview_inv : forall s s', uview_of s = uview_of s' ->
   hist (nd s) = hist (nd s') /\ applied (nd s) = applied (nd s') /\
   enabled_ver (nd s) = enabled_ver (nd s') /\ self_ver (nd s) = self_ver (nd s').
 Proof. unfold uview_of. intros s s' H. injection H. auto. Qed.
 
-Lemma view_split : forall s s', cview_of s = cview_of s' -> uview_of s = uview_of s' -> view_of s = view_of s'.
+Lemma sview_split : forall s s', cview_of s = cview_of s' -> uview_of s = uview_of s' -> sview_of s = sview_of s'.
 Proof.
   intros s s' C U. apply cview_inv in C as (C1 & C2 & C3 & C4 & C5 & C6).
   apply uview_inv in U as (U1 & U2 & U3 & U4).
-  unfold view_of. now rewrite C1, C2, C3, C4, C6, U1, U2, U3, U4.
+  unfold sview_of. now rewrite C1, C2, C3, C4, C6, U1, U2, U3, U4.
 Qed.
 
 (* ---- sorted association lists (wait_commit, wait_reply are kept sorted by aset/adel) ---- *)
@@ -596,4 +657,17 @@ Proof.
       * apply N.eqb_eq in E2. subst.
         destruct (k =? k0) eqn:E; auto. apply N.eqb_eq in E. congruence.
       * destruct (k =? k0); auto.
+Qed.
+
+Lemma NoDup_app_l : forall {A} (a b : list A), NoDup (a ++ b) -> NoDup a.
+Proof.
+  induction a as [|x a IH]; intros b H; [constructor|].
+  inversion H as [|? ? NI ND]; subst. constructor; eauto.
+  intros I. apply NI. apply in_or_app. now left.
+Qed.
+
+Lemma NoDup_app_r : forall {A} (a b : list A), NoDup (a ++ b) -> NoDup b.
+Proof.
+  induction a as [|x a IH]; intros b H; auto.
+  inversion H; subst. eauto.
 Qed.
